@@ -47,7 +47,7 @@ def body(ck, tier, runner):
         db = qgen.gen_db(rng, ntables=2, max_rows=rng.pick([5, 40]), big=(d % 5 == 4))
         g = qgen.Gen(rng, db, {"join", "agg", "union", "distinct"})
         q, ty = g.query(rng.pick([1, 2]))
-        if qgen.has_or_absorption(q):
+        if qgen.excluded(q):
             continue
         model = sd.model_rows(db, [q])[0]
         if model[0] != "ok":
